@@ -74,8 +74,8 @@ AtomNext0 == Len(s) < K /\ \E a \in Range(Alphabet) : s' = Append(s, a)
 
 ----------------------------------------------------------------------------
 (* MutSpec: mutations of seed files.  `toks` is the current token list: n > 0 stands for the   *)
-(* n-th token of the seed, a string for an inserted atom; `ops` is the history that vh-parse   *)
-(* replays on the seed text.                                                                   *)
+(* n-th token of the seed, -k for an inserted atom MutAtoms[k] (all integers: TLC cannot       *)
+(* compare integers with strings); `ops` is the history that vh-parse replays on the seed.     *)
 CONSTANTS NSeeds, SeedTok(_), SeedDelims(_), MaxOps
 VARIABLES seed, toks, ops
 mvars == <<seed, toks, ops>>
@@ -85,8 +85,8 @@ MutInit0 == seed \in 1..NSeeds /\ toks = [k \in 1..SeedTok(seed) |-> k] /\ ops =
 Del(q, p) == SubSeq(q, 1, p - 1) \o SubSeq(q, p + 1, Len(q))
 Ins(q, p, x) == SubSeq(q, 1, p - 1) \o <<x>> \o SubSeq(q, p, Len(q))
 
-Insert(p, a) == /\ p \in 1..(Len(toks) + 1)
-                /\ toks' = Ins(toks, p, a) /\ ops' = Append(ops, <<"ins", p, a>>)
+Insert(p, k) == /\ p \in 1..(Len(toks) + 1) /\ k \in DOMAIN MutAtoms
+                /\ toks' = Ins(toks, p, 0 - k) /\ ops' = Append(ops, <<"ins", p, MutAtoms[k]>>)
 Delete(p)    == /\ p \in 1..Len(toks)
                 /\ toks' = Del(toks, p) /\ ops' = Append(ops, <<"del", p>>)
 Duplicate(p) == /\ p \in 1..Len(toks)
@@ -105,7 +105,7 @@ MutNext0 ==
     /\ Len(ops) < MaxOps
     /\ UNCHANGED seed
     /\ \E p \in 1..(Len(toks) + 1) :
-          \/ \E a \in Range(MutAtoms) : Insert(p, a)
+          \/ \E k \in DOMAIN MutAtoms : Insert(p, k)
           \/ Delete(p) \/ Duplicate(p) \/ Swap(p) \/ Unbalance(p) \/ Cut(p)
 
 ----------------------------------------------------------------------------
